@@ -29,10 +29,10 @@ MANIFEST = {
             "custom_properties loophole (never, with the parse guard); a run that returns a custom-free object does not depend "
             "on the allow_custom switch (repaired reference inversion); flag_iff_strict_reparse_partial: an allow-mode run "
             "returns flag false exactly when the strict run on the object's own encoding succeeds (constructor level, the "
-            "classes of the regenerated tables that pass closed_ok: 116 of 123, plain JSON input); strict_custom_free_partial: "
+            "classes of the regenerated tables that pass closed_oki: 117 of 123 -- plain __init__ forms and the 2.1 Indicator one --, plain JSON input); strict_custom_free_partial: "
             "the object a strict constructor returns is custom-free at every depth in the typed sense of Spec/CustomFree.v "
             "(members are class properties, hash names from the vocabulary, references to registered non-x- types, nested "
-            "objects custom-free in turn), and in either mode an unflagged object is; both also at stix2.parse level for the 86 "
+            "objects custom-free in turn), and in either mode an unflagged object is; both also at stix2.parse level for the 87 "
             "parse entry points (flag_iff_strict_reparse_parse_partial, strict_custom_free_parse_partial); refuted-variant witnesses on "
             "the generated tables. Model tied to /repo by regenerated class tables and a correspondence run (flag + strict "
             "reparse outcome); the property itself is evaluated on the real library with custom content injected at every "
